@@ -3,7 +3,8 @@ from props._common import COMMON_TB
 PROP = dict(
     title="Unreachable memory is reclaimed and a dropped runtime frees everything",
     lean_module="AbraProofs.Properties.C07",
-    required_theorems=["C07_cycle_complete", "C07_quiet_cycle_leaves_only_reachable", "C07_drop_frees_all"],
+    required_theorems=["C07_cycle_complete", "C07_quiet_cycle_leaves_only_reachable", "C07_collector_progress",
+                       "C07_quiet_cycle_terminates", "C07_drop_frees_all"],
     harness_bin="c07",
     mismatch_is_violation=False,
     rule="(A) generated allocation-heavy programs (quick 24 / thorough 120) run with the collector driven by hand so that "
@@ -22,11 +23,11 @@ PROP = dict(
         "the Drop ledger model states the ownership structure (each thread owns its heap_list, the shared part owns the static strings); that the Rust Drop impls implement it is checked by the allocator oracle only",
     ],
     assumptions=["the quantitative bound of heap size under the real pacing (slice = 2*debt) is checked by oracle (B), not proved",
-                 "collector progress (a cycle finishes after finitely many increments when the program is quiet) is exercised by (A), not stated as a theorem"],
+                 "progress is proved for collector increments (measure mu); that the real pacing gives the collector enough increments relative to allocation is checked by oracle (B)"],
     design_ref="DESIGN.md §6 C07",
     level_text="Theorem over all interleavings within a collection cycle: whatever is still allocated when the collector returns to idle "
                "was reachable when the cycle started or allocated during it (so unreachable objects are reclaimed by the cycle, floating "
-               "garbage by the next); a ledger statement for Drop. Tied to vm.rs by per-transition validation of real executions, a peak-heap "
+               "garbage by the next); every collector increment of a running cycle strictly decreases a work measure, so a quiet cycle ends within mu increments; a ledger statement for Drop. Tied to vm.rs by per-transition validation of real executions, a peak-heap "
                "oracle under the real pacing and a counting-allocator oracle for create/run/drop.",
     level_note="Bounded-heap arithmetic of the pacing and the Rust Drop implementations are covered by oracles, not theorems.",
     technique="Lean 4 ghost-set invariant proof over the mark/sweep state machine + trace validation, peak-heap and counting-allocator oracles",
